@@ -32,6 +32,9 @@ var solvers = []SolverSpec{
 	}},
 }
 
+// solverHints: obligation name -> back end that discharged it before.
+var solverHints = map[string]string{}
+
 type SolveResult struct {
 	Answer string // unsat sat unknown timeout error
 	Solver string
@@ -207,6 +210,26 @@ func discharge(vc *FnVC, k int, timeoutSec int, thorough bool) (SolveResult, map
 	per := map[string]SolveResult{}
 	q := buildQuery(vc, k, true)
 	if !thorough {
+		// stage 0: the back end that discharged this obligation last time (specs/hints.txt: performance
+		// data only; any other outcome falls through to the portfolio)
+		if h, ok := solverHints[vc.Obs[k].Name]; ok {
+			var sp *SolverSpec
+			for i := range solvers {
+				if solvers[i].Name == h {
+					sp = &solvers[i]
+				}
+			}
+			if h == ematchSolver.Name {
+				sp = &ematchSolver
+			}
+			if sp != nil {
+				r := runSolver(context.Background(), *sp, q, timeoutSec)
+				if r.Answer == "unsat" || (r.Answer == "sat" && sp != &ematchSolver) {
+					per[r.Solver] = r
+					return r, per
+				}
+			}
+		}
 		// stage 1: default z3 5.1.0 and its E-matching-only configuration, short budget; the first
 		// definitive answer stops the other
 		ctx1, cancel1 := context.WithCancel(context.Background())
